@@ -1408,7 +1408,9 @@ class Kconfig(object):
                 if match:
                     name, val = match.groups()
                     sym = get_sym(name)
-                    if not sym and in_deprecated_block:
+                    # (a deprecated name that the Kconfig files still mention in an expression is already known,
+                    # but not defined)
+                    if (not sym or not sym.nodes) and in_deprecated_block:
                         sym = _create_new_deprecated_symbol(name, val)
                         value_is_default = False
                         continue
@@ -1506,7 +1508,7 @@ class Kconfig(object):
 
                     name = match.group(1)
                     sym = get_sym(name)
-                    if not sym and in_deprecated_block:
+                    if (not sym or not sym.nodes) and in_deprecated_block:
                         sym = _create_new_deprecated_symbol(name, "n")
                         value_is_default = False
 
